@@ -359,19 +359,32 @@ func c13HistExec(h c13Hist) (keys []string, detail, class string) {
 	for i, op := range h.Ops {
 		names = append(names, c13HistOps[op])
 		last := i == len(h.Ops)-1
+		var serr error
+		sp := sp
+		pnc := guard(func() {
+			switch op {
+			case 0:
+				serr = sp.SetSPKeyStore(world.SetterKeyStore("KX"))
+			case 1:
+				serr = sp.SetSPKeyStore(nil)
+			case 2, 3:
+				serr = sp.SetSPSigningKeyStore(world.SetterKeyStore([]string{"K1", "KA"}[op-2]))
+			case 4:
+				serr = sp.SetSPSigningKeyStore(nil)
+			}
+		})
+		if pnc != "" || serr != nil {
+			return []string{"C13/history/setter-fails"}, fmt.Sprintf("history=%v: step %d %s: err=%v panic=%q", names, i, c13HistOps[op], serr, pnc), "ERROR"
+		}
 		switch op {
 		case 0:
-			sp.SetSPKeyStore(world.SetterKeyStore("KX"))
 			k.EncSetter = true
 		case 1:
-			sp.SetSPKeyStore(nil)
 			k.EncSetter = false
 		case 2, 3:
 			sigSetter = []string{"K1", "KA"}[op-2]
-			sp.SetSPSigningKeyStore(world.SetterKeyStore(sigSetter))
 			k.SigSetter = true
 		case 4:
-			sp.SetSPSigningKeyStore(nil)
 			k.SigSetter, sigSetter = false, ""
 		default:
 			kind := []string{"AuthnRequest", "LogoutRequest", "LogoutResponse"}[op-5]
